@@ -116,6 +116,8 @@ impl QueryEngine {
             .with_allow_ddl(false)
             .with_allow_dml(false)
             .with_allow_statements(false);
+        #[cfg(cardinalsin_verif)]
+        crate::verif_hooks::pause("query.before_plan").await;
         Ok(self.ctx.sql_with_options(sql, options).await?)
     }
 
